@@ -72,6 +72,14 @@ class GptRun:
         world.set_digest(lambda: _kfac_state(self.pre, (), len(self.rec)))
 
     def _mk_model(self):
+        if self.cfg.get('plain_stage') == self.coord.pipe:
+            # a pipeline stage without any K-FAC layer (plain nn.Linear is
+            # not registered by the GPT-NeoX preconditioner)
+            full = gptenv.full_model(self.cfg.get('gmodel', 'gpt2l'),
+                                     self.cfg.get('bias', True),
+                                     seed=self.cfg.get('seed', 0))
+            return gptenv.PipelineModule(
+                full, self.topo, prefix=stage_prefix(self.coord.pipe))
         shard = gptenv.shard_model(self.cfg.get('gmodel', 'gpt2l'),
                                    self.cfg.get('bias', True),
                                    self.mp, self.coord.model,
